@@ -501,7 +501,8 @@ def judge_groups(ck, groups, limit=5):
     nsh = 16
     from concurrent.futures import ThreadPoolExecutor
     with ThreadPoolExecutor(max_workers=2) as ex:
-        share = max(2, min(8, round(nsh * len(cterms) / max(1, len(terms) + len(cterms))))) if cterms else 0
+        # a clause case costs about 0.45 of a term / parse case (measured); shards in proportion to the work
+        share = max(1, min(8, round(nsh * 0.45 * len(cterms) / max(1.0, len(terms) + 0.45 * len(cterms))))) if cterms else 0
         f1 = ex.submit(lambda: ck.run_coq("C09", "judge", terms, shard=max(25, len(terms) // max(1, nsh - share) + 1)) if terms else [])
         f2 = ex.submit(lambda: ck.run_coq("C09", "judge_clause", cterms, shard=max(10, len(cterms) // max(1, share) + 1), tag="clauses")
                        if cterms else [])
